@@ -45,6 +45,17 @@ Print Assumptions C20_deferred_latest_nomination_wins.
 
 (* only a controlling agent with the feature enabled can renominate: otherwise nothing changes and
    nothing is sent *)
+(* A deferred nomination is consumed when its pair becomes valid: whatever the outcome, afterwards no pair
+   with that identifier still carries a pending nomination, so a later response on it cannot replay an older
+   nomination against a newer one (the pinned code never reset the flag: repaired, see known_findings.json) *)
+Theorem C20_deferred_nomination_consumed : forall cfg m l r src s q rest p0,
+  take_pending (m_tx m) (filter (fun q => since cfg s (q_ts q) <? maxBindingRequestTimeout) (s_pending s)) = Some (q, rest) ->
+  response_symmetric q l src = true ->
+  find_pair l r s = Some p0 -> p_nom_on_succ p0 = true ->
+  Forall (consumed (p_id p0)) (s_checklist (fst (handle_success_controlled cfg m l r src s))).
+Proof. exact deferred_nomination_consumed. Qed.
+Print Assumptions C20_deferred_nomination_consumed.
+
 Theorem C20_only_controlling_with_feature : forall cfg l r v s,
   s_ctl s = false \/ cf_renomination cfg = false ->
   do_renominate cfg l r v s = (s, [ORet (if s_ctl s then RErrRenominationOff else RErrNotControlling)]).
